@@ -116,6 +116,8 @@ def run_batch(prop, scenarios, n_runs, seed):
         mseed = (seed + i * 101) % (1 << 31)
         # the id-allocation window is a handful of instructions: pre-empt much more often there
         rates = ["0.1", "0.3", "0.5"] if sc in ("ids", "dd_mt") else RATES
+        if sc == "blocking_ask_storm":
+            rates = ["0.5", "0.9", "0.3", "1.0"]
         if sc == "kill_then_drop":
             # the actor task must be pre-empted in the middle of one poll of its loop
             rates = ["0.05", "0.5", "0.2", "0.01", "0.1", "0.3"]
